@@ -204,8 +204,15 @@ def execute(t, AL):
     from cola import linalg as L
     from cola.linalg.svd.svd import svd
     dtype = np.float64 if t["dt"] == "f8" else np.complex128
-    inst = instances(dtype) if t["shape"] == "square" else rect_instances(dtype)
-    A = annotate(inst[t["kind"]](), t["annot"])
+    if t.get("big"):
+        # more than 1e6 entries: the size-dependent branch of every `Auto` rule re-dispatches on another algorithm object
+        # (matrix-free, so nothing big is allocated; the loop tap aborts the iterative algorithm right after the lookup)
+        n = 1001
+        d = np.linspace(1.0, 2.0, n).astype(dtype)
+        A = annotate(cola.ops.LinearOperator(dtype, (n, n), matmat=lambda X, d=d: d[:, None] * X), t["annot"])
+    else:
+        inst = instances(dtype) if t["shape"] == "square" else rect_instances(dtype)
+        A = annotate(inst[t["kind"]](), t["annot"])
     fn = t["fn"]
     if "kind2" in t:
         B2 = annotate(inst[t["kind2"]](), t["annot2"])
@@ -304,6 +311,13 @@ def gen(tier, rng, shard, nshards):
     for i, t in enumerate(lattice(config, tier)):
         if i % tot == idx:
             yield dict(t, config=config)
+    if idx == 0:
+        for fn in ("inv", "solve", "pinv", "slogdet", "logdet", "diag", "trace", "exp", "log", "sqrt", "isqrt", "pow", "pow_neg1", "apply_unary", "eig", "eigmax",
+                   "eigmin", "svd"):
+            for a in (OMIT, "Auto"):
+                for annot in (None, "PSD", "SelfAdjoint"):
+                    yield {"fn": fn, "kind": "BigGeneric", "shape": "square", "dt": "f8", "annot": annot, "alg": a, "log_alg": a, "trace_alg": OMIT, "k": 2 if fn != "diag" else 0,
+                           "which": "LM", "big": True, "config": config}
 
 
 _STATE = {}
@@ -326,7 +340,24 @@ def run_case(ctx, t):
     ctx.count("config", t["config"])
     DISPATCH.reset()
     state = np.random.get_state()
-    out = ctx.call(execute, t, _STATE["algs"])
+    if t.get("big"):
+        from harness.looptap import LOOPS
+        import signal
+        LOOPS.install()
+        LOOPS.start(hard_cap=2)
+
+        def _stop(*a):  # the lookups happen first; the numerical work after them is not C04's subject
+            raise TimeoutError("big-operator case cut after the dispatch phase")
+        old_handler = signal.signal(signal.SIGALRM, _stop)
+        signal.alarm(6)
+        try:
+            out = ctx.call(execute, t, _STATE["algs"])
+        finally:
+            signal.alarm(0)
+            signal.signal(signal.SIGALRM, old_handler)
+            LOOPS.stop()
+    else:
+        out = ctx.call(execute, t, _STATE["algs"])
     np.random.set_state(state)
     if hasattr(out, "type"):
         ctx.count("other_exceptions (outside C04)", out.type)
